@@ -64,7 +64,7 @@ func (vector *Vector) ScalarMul(a Vector, b *{{.ElementName}}) {
 	if n % blockSize != 0 {
 		// call scalarMulVecGeneric on the rest
 		start := n - n % blockSize
-		scalarMulVecGeneric((*vector)[start:], a[start:], b)
+		scalarMulVecGeneric((*vector)[start:], a[start:], &bb[0])
 	}
 }
 
@@ -365,11 +365,12 @@ func (vector *Vector) ScalarMul(a Vector, b *{{.ElementName}}) {
 	}
 
 	const blockSize = 16
-	scalarMulVec(&(*vector)[0], &a[0], b, n/blockSize)
+	bCopy := *b // b may point to an element of the destination
+	scalarMulVec(&(*vector)[0], &a[0], &bCopy, n/blockSize)
 	if n % blockSize != 0 {
 		// call scalarMulVecGeneric on the rest
 		start := n - n % blockSize
-		scalarMulVecGeneric((*vector)[start:], a[start:], b)
+		scalarMulVecGeneric((*vector)[start:], a[start:], &bCopy)
 	}
 }
 
